@@ -259,6 +259,41 @@ func (fc *fileCtx) syncMethod(call *ast.CallExpr) (recv ast.Expr, typ, method st
 	return nil, "", "", false
 }
 
+// isAtomicOp reports calls of sync/atomic functions, of methods of sync/atomic types, and
+// of sync.Map / sync.Pool methods.
+func (fc *fileCtx) isAtomicOp(call *ast.CallExpr) bool {
+	sel, ok := call.Fun.(*ast.SelectorExpr)
+	if !ok {
+		return false
+	}
+	f, ok := fc.info.Uses[sel.Sel].(*types.Func)
+	if !ok || f.Pkg() == nil {
+		return false
+	}
+	sig, _ := f.Type().(*types.Signature)
+	if sig == nil {
+		return false
+	}
+	if sig.Recv() == nil {
+		return f.Pkg().Path() == "sync/atomic"
+	}
+	rt := sig.Recv().Type()
+	if p, isPtr := rt.(*types.Pointer); isPtr {
+		rt = p.Elem()
+	}
+	n, isNamed := rt.(*types.Named)
+	if !isNamed || n.Obj().Pkg() == nil {
+		return false
+	}
+	switch n.Obj().Pkg().Path() {
+	case "sync/atomic":
+		return true
+	case "sync":
+		return n.Obj().Name() == "Map" || n.Obj().Name() == "Pool"
+	}
+	return false
+}
+
 // addrOf returns the text prefix/suffix that makes expr a pointer to the sync object.
 func (fc *fileCtx) addrOf(x ast.Expr, sel *ast.SelectorExpr) (pre, post string) {
 	s := fc.info.Selections[sel]
@@ -421,6 +456,28 @@ func (fc *fileCtx) walk(opt Options) {
 							// go-critic has no clock today; a real timer under a simulated
 							// schedule would make runs depend on wall-clock time
 							fc.fail(x.Pos(), "unsupported: %s.%s (real clock; the simulator has no clock seam because go-critic reads none)", f.Pkg().Name(), f.Name())
+						}
+					}
+				}
+				if fc.isAtomicOp(x) {
+					// lock-free synchronisation: nothing can block here, but the order of two
+					// tasks' atomic operations is a scheduling decision like any other, so each
+					// one is followed by a yield point
+					switch parent := stack[len(stack)-2].(type) {
+					case *ast.ExprStmt:
+						switch stack[len(stack)-3].(type) {
+						case *ast.BlockStmt, *ast.CaseClause, *ast.CommClause:
+							id := fc.site("atomic", x.Pos(), fc.funcName(stack))
+							fc.insertCloser(parent.End(), fmt.Sprintf("; gcsimrt.YieldAtomic(%d)", id))
+						}
+					case *ast.DeferStmt, *ast.GoStmt:
+					default:
+						if tv, ok := fc.info.Types[x]; ok && tv.Type != nil {
+							if _, isTuple := tv.Type.(*types.Tuple); !isTuple {
+								id := fc.site("atomic", x.Pos(), fc.funcName(stack))
+								fc.insert(x.Pos(), fmt.Sprintf("gcsimrt.After(%d, ", id))
+								fc.insertCloser(x.End(), ")")
+							}
 						}
 					}
 				}
